@@ -91,8 +91,9 @@ def ls_paths(disc: G.Disc) -> List[str]:
     for pi, p in enumerate(disc.partitions):
         letter = chr(ord("A") + pi)
         paths.append(letter + ":")
-        for v in p.volumes:
-            vn = v.name.upper().rstrip()
+        shown = G.shown_names([v.name.upper().rstrip() for v in p.volumes])
+        for vi, v in enumerate(p.volumes):
+            vn = shown[vi]
             paths.append(f"{letter}:/{vn}")
             for f in v.files:
                 if f.kind == "sample":
